@@ -1,10 +1,12 @@
 import GraphSlam.Generated.Dispatch
 import Driver.Proto
+import GraphSlam.Model.Chi2
 
 /-! Model driver: one request per input line, one reply per output line.
 
   eval <name> <dims|-> <hexfloat>*      evaluate a generated definition at Float
   names                                  list generated definitions
+  sum <hexfloat>*                        Model.graphChi2 (Python `sum`) at Float
 -/
 
 open Driver
@@ -18,6 +20,10 @@ def handle (line : String) : String :=
       | some out => "ok " ++ fmtFloats out
       | none => "err unknown-def"
     | _, _ => "err bad-args"
+  | "sum" :: rest =>
+    match parseFloats rest with
+    | some a => "ok " ++ fmtFloat (GraphSlam.Model.graphChi2 a.toList)
+    | none => "err bad-args"
   | ["names"] => "ok " ++ " ".intercalate GraphSlam.Gen.Dispatch.names
   | _ => "err bad-op"
 
